@@ -18,7 +18,8 @@ def Verdict.render (v : Verdict) : String :=
 
 def cmp (what expected got : String) : Option String :=
   if expected == got then none else
-  let sh (s : String) := if s.length > 120 then (s.take 120).toString ++ "…" else s
+  let clean (s : String) : String := String.ofList (s.toList.map fun c => if c == '\n' || c == '\t' || c == '\r' then '¶' else c)
+  let sh (s : String) := clean (if s.length > 120 then (s.take 120).toString ++ "…" else s)
   some s!"{what}:expected[{sh expected}]got[{sh got}]"
 
 /-- first failing check -/
